@@ -109,26 +109,30 @@ def check(run: Run) -> None:
     run.check(ok, "C09.R2", pp, pp.node, "parameters are ast.literal_eval(slice) (by value)", "the [param] subscript is not evaluated with ast.literal_eval")
     vc = need("visit_Call")
     fvc = ctx.analysis(vc)
-    pcs = [c for c in calls_in(vc) if isinstance(c.func, ast.Attribute) and c.func.attr == "process_parameterized_method_call"]
+    from ..lib import call_events, event_before
+
+    evs = call_events(ctx, vc, lambda nm: nm.startswith("process_") or nm == "generic_visit")
+    pcs = [e for e in evs if e.name == "process_parameterized_method_call"]
     run.check(len(pcs) == 1, "C09.R2", vc, vc.node, "one parameterized-call site", f"{len(pcs)} sites")
     V = ("gvisit", ("param", vc.pos_params[1]))
-    for c in pcs:
-        a = [strip_sites(fvc.term_of(x)) for x in c.args]
+    for e in pcs:
+        a = list(e.args)
         f = ("attr", V, "func")
+        at_ = stmt_of(e.call) if e.owner is vc else vc.node
         ok = len(a) == 5 and a[0] == V and a[2] == ("attr", ("attr", f, "value"), "attr") and a[3] == ("attr", f, "slice") and a[4] == ("attr", f, "value")
-        run.check(ok, "C09.R2", vc, stmt_of(c), "callback gets the visited call, attribute name, slice and the un-subscripted attribute", f"process_parameterized_method_call is called with ({', '.join(show(x)[:30] for x in a)})")
-        fx = Facts(fvc, c)
-        run.check(fx.isinstance_of(f, {"ast.Subscript"}) and fx.isinstance_of(("attr", f, "value"), {"ast.Attribute"}), "C09.R2", vc, stmt_of(c), "only obj.attr[..](..) shapes are treated as parameterized calls", "parameterized-call processing is not restricted to obj.attr[params](args)")
+        run.check(ok, "C09.R2", vc, at_, "callback gets the visited call, attribute name, slice and the un-subscripted attribute", f"process_parameterized_method_call is called with ({', '.join(show(x)[:30] for x in a)})")
+        fx = e.facts(ctx)
+        run.check(fx.isinstance_of(f, {"ast.Subscript"}) and fx.isinstance_of(("attr", f, "value"), {"ast.Attribute"}), "C09.R2", vc, at_, "only obj.attr[..](..) shapes are treated as parameterized calls", "parameterized-call processing is not restricted to obj.attr[params](args)")
     # dispatch of the three kinds in visit_Call: after children were visited
-    gv = [c for c in calls_in(vc) if isinstance(c.func, ast.Attribute) and c.func.attr == "generic_visit"]
-    run.check(len(gv) == 1 and all(fvc.cfg.dominates(fvc.cfg.node_of(gv[0]), fvc.cfg.node_of(c)) for c in calls_in(vc) if isinstance(c.func, ast.Attribute) and c.func.attr.startswith("process_")), "C09.R1", vc, vc.node, "nested call sites are processed first (children visited before the call)", "visit_Call does not visit the call's children before processing it: callbacks of nested call sites may not fire")
-    pmc = [c for c in calls_in(vc) if isinstance(c.func, ast.Attribute) and c.func.attr == "process_method_call"]
-    pfc = [c for c in calls_in(vc) if isinstance(c.func, ast.Attribute) and c.func.attr == "process_function_call"]
+    gv = [e for e in evs if e.name == "generic_visit"]
+    run.check(len(gv) == 1 and all(event_before(ctx, vc, gv[0], e) for e in evs if e.name.startswith("process_")), "C09.R1", vc, vc.node, "nested call sites are processed first (children visited before the call)", "visit_Call does not visit the call's children before processing it: callbacks of nested call sites may not fire")
+    pmc = [e for e in evs if e.name == "process_method_call"]
+    pfc = [e for e in evs if e.name == "process_function_call"]
     run.check(len(pmc) == 1 and len(pfc) == 1, "C09.R1", vc, vc.node, "method calls and registered functions are each processed at one site", f"{len(pmc)} method / {len(pfc)} function processing sites")
-    for c in pfc:
-        fx = Facts(fvc, c)
+    for e in pfc:
+        fx = e.facts(ctx)
         ok = any(pol and isinstance(a, ast.Compare) and isinstance(a.ops[0], ast.In) and "_global_functions" in ast.unparse(a.comparators[0]) for a, pol in fx.atoms) and fx.isinstance_of(("attr", V, "func"), {"ast.Name"})
-        run.check(ok, "C09.R5", vc, stmt_of(c), "function processors only for registered function names", "process_function_call is reached for names that are not registered")
+        run.check(ok, "C09.R5", vc, stmt_of(e.call) if e.owner is vc else vc.node, "function processors only for registered function names", "process_function_call is reached for names that are not registered")
 
     # the node a callback returns must get a recorded type, otherwise callbacks of methods chained on it never fire
     for name in ("process_function_call", "process_parameterized_method_call", "process_method_call"):
@@ -188,15 +192,24 @@ def check(run: Run) -> None:
     for c in scans:
         a0 = strip_sites(fps.term_of(c.args[0]))
         run.check(all(x[0] == "attr" and x[2] == "_q_ast" for x in unphi_terms(a0)), "C09.R3", ps, stmt_of(c), "the scan runs over the nested stream's query AST", f"scan runs over {show(a0)[:60]}")
-    adders = [f for f in m.funcs.values() if f.parent_func is ps]
+    # the callback handed to the scan: a closure of this method, or a (bound) method of the transformer
+    adders = []
+    for c in scans:
+        cb = c.args[1] if len(c.args) > 1 else next((k.value for k in c.keywords if k.arg == "callback"), None)
+        if isinstance(cb, ast.Name):
+            adders += [(f, ("free", ps.pos_params[0]), 0) for f in m.funcs.values() if f.parent_func is ps and f.name == cb.id]
+        elif isinstance(cb, ast.Attribute) and isinstance(cb.value, ast.Name) and cb.value.id == ps.pos_params[0] and ps.cls is not None:
+            g_ = m.find_method(ps.cls, cb.attr)
+            if g_ is not None and g_.pos_params:
+                adders.append((g_, ("param", g_.pos_params[0]), 1))
     ok = False
-    for f in adders:
+    for f, self_t, first in adders:
         fad = ctx.analysis(f)
         for n in own_nodes(f):
             if isinstance(n, ast.Assign) and isinstance(n.targets[0], ast.Attribute) and n.targets[0].attr == "_stream":
                 v = strip_sites(fad.term_of(n.value))
-                cur = ("attr", ("free", "self"), "_stream")
-                ok = v[0] == "app" and v[1] == ("attr", cur, "MetaData") and len(v[2]) == 1 and v[2][0] == ("app", ("global", "ast.literal_eval"), (("param", f.pos_params[0]),), ())
+                cur = ("attr", self_t, "_stream")
+                ok = len(f.pos_params) > first and strip_sites(fad.term_of(n.targets[0].value)) == self_t and v[0] == "app" and v[1] == ("attr", cur, "MetaData") and len(v[2]) == 1 and v[2][0] == ("app", ("global", "ast.literal_eval"), (("param", f.pos_params[first]),), ())
                 run.check(ok, "C09.R3", f, n, "each nested MetaData is re-applied to the current stream", f"the nested metadata is applied as {show(v)[:120]}: it must extend the transformer's current stream with the evaluated dictionary", "self._stream = self._stream.MetaData(ast.literal_eval(md))", show(v))
     run.check(ok, "C09.R3", ps, ps.node, "a callback re-applies nested MetaData to the current stream", "no callback re-applies the nested stream's MetaData")
 
